@@ -19,6 +19,7 @@
   Only property statements live here; helper lemmas are in KavaVerif/Proofs/Bep3*.lean.
 -/
 import KavaVerif.Proofs.Bep3Examples
+import KavaVerif.Proofs.Bep3Deputy
 set_option linter.unusedSimpArgs false
 set_option linter.unusedVariables false
 
@@ -314,18 +315,88 @@ theorem C13_deputy_only_incoming (cfg : Cfg) (hs : Hashes) (s s' : St) (hash : H
     · have := hiff.mpr he; rw [this] at ho; cases ho
     · exact hr
 
-/-- As a state invariant (deputy addresses are not changed by the modelled operations): every stored swap is
-    incoming exactly when its sender is the deputy of its asset. -/
+/-- As a state invariant while governance leaves the deputy addresses alone (no `setDeputy` in the history; a
+    rotation changes who the deputy is, never a stored swap — see `C13_deputy_rotation`): every stored swap
+    is incoming exactly when its sender is the deputy of its asset. -/
 theorem C13_deputy_only_incoming_inv (cfg : Cfg) (hs : Hashes) (hcfg : cfg.macc cfg.module = true) :
-    ∀ (ops : List Op) (s : St), Inv cfg hs s → DeputyInv s → (∀ op ∈ ops, OpOk cfg op) →
+    ∀ (ops : List Op) (s : St), Inv cfg hs s → DeputyInv s → (∀ op ∈ ops, OpOk cfg op ∧ notSetDeputy op) →
       DeputyInv (run cfg hs s ops) := by
   intro ops
   induction ops with
   | nil => intro s _ hd _; exact hd
   | cons op rest ih =>
     intro s h hd hops
-    exact ih _ (inv_step hcfg h op (hops op List.mem_cons_self)) (deputy_step hcfg h hd op)
+    have ho := hops op List.mem_cons_self
+    exact ih _ (inv_step hcfg h op ho.1) (deputy_step hcfg h hd op ho.2)
       (fun o ho => hops o (List.mem_cons_of_mem _ ho))
+
+/-! ## Deputy rotation
+
+  Governance may replace an asset's deputy address while swaps of that asset are live (operation `setDeputy`,
+  part of every history quantified over by `C13_invariant`, `C13_custody`, `C13_counters`, `C13_indexes`,
+  `C13_lifecycle`, `C13_funds_*`).  The swap keeps the direction, sender and recipient it was created with;
+  only swaps created afterwards see the new deputy. -/
+
+/-- Rotating the deputy of asset `d` (1) preserves the invariant — hence custody, counters and indexes —,
+    (2) moves nothing: swap records, both indexes, supply counters, balances, bank supply and the clock are
+    untouched, and every asset keeps its parameters except that `d` now has deputy `dep`; (3) closing a stored
+    swap is independent of who the deputy is now: a refund and a claim after the rotation have exactly the
+    outcome they would have had before it (same result class, same successor state up to the rotated
+    parameter), so by `C13_funds_claim` / `C13_funds_refund` they move exactly the funds the swap's stored
+    direction prescribes; (4) a live swap stays closable: an expired swap can still be refunded and an open
+    outgoing swap claimed with its secret. -/
+theorem C13_deputy_rotation (cfg : Cfg) (hs : Hashes) (s : St) (h : Inv cfg hs s) (d : Denom) (dep : Addr) :
+    step cfg hs s (.setDeputy d dep) = setDeputy s d dep ∧
+    Inv cfg hs (setDeputy s d dep) ∧
+    ((setDeputy s d dep).swaps = s.swaps ∧ (setDeputy s d dep).byBlock = s.byBlock ∧
+      (setDeputy s d dep).longterm = s.longterm ∧ (setDeputy s d dep).supply = s.supply ∧
+      (setDeputy s d dep).bal = s.bal ∧ (setDeputy s d dep).bankSupply = s.bankSupply ∧
+      (setDeputy s d dep).height = s.height ∧ (setDeputy s d dep).time = s.time ∧
+      (setDeputy s d dep).prevTime = s.prevTime) ∧
+    (∀ d', getAsset (setDeputy s d dep).assets d' =
+      (getAsset s.assets d').map (fun a => if d' = d then { a with deputy := dep } else a)) ∧
+    (∀ id, refund cfg hs (setDeputy s d dep) id = Res.map (fun t => setDeputy t d dep) (refund cfg hs s id)) ∧
+    (∀ id rn, claim cfg hs (setDeputy s d dep) id rn =
+      Res.map (fun t => setDeputy t d dep) (claim cfg hs s id rn)) ∧
+    (∀ id sw, findSwap (setDeputy s d dep).swaps id = some sw → sw.status = .expired →
+      cfg.blocked sw.sender = false → (refund cfg hs (setDeputy s d dep) id).isOk = true) ∧
+    (∀ id sw rn, findSwap (setDeputy s d dep).swaps id = some sw → sw.status = .open → sw.dir = .outgoing →
+      hs.sid (hs.H rn sw.ts) sw.sender sw.other = hs.sid sw.hash sw.sender sw.other →
+      (claim cfg hs (setDeputy s d dep) id rn).isOk = true) := by
+  have hi := setDeputy_inv h d dep
+  refine ⟨rfl, hi, setDeputy_frame s d dep, fun d' => getAsset_after_setDeputy s d dep d',
+    fun id => refund_setDeputy cfg hs s d dep id, fun id rn => claim_setDeputy cfg hs s d dep id rn, ?_, ?_⟩
+  · intro id sw hf hst hb
+    exact refund_succeeds hi hf hst hb
+  · intro id sw rn hf hst hd hpre
+    exact claim_outgoing_succeeds hi hf hst hd hpre
+
+/-- Along every history, rotations included, a successful close moves the funds of the swap's STORED direction:
+    claiming an incoming swap mints its amount to its recipient, claiming an outgoing swap burns its amount
+    from the module account, refunding an outgoing swap returns its amount to its sender, refunding an
+    incoming swap moves nothing — and the custody and counter clauses hold again afterwards. -/
+theorem C13_deputy_rotation_close (cfg : Cfg) (hs : Hashes) (hcfg : cfg.macc cfg.module = true) (s0 : St)
+    (ops : List Op) (h0 : Inv cfg hs s0) (hops : ∀ op ∈ ops, OpOk cfg op) (frm : Addr) (id : Id) (rn : Nat) :
+    let s := run cfg hs s0 ops
+    (∀ s', claim cfg hs s id rn = .ok s' → ∃ sw, findSwap s.swaps id = some sw ∧ Inv cfg hs s' ∧
+      (sw.dir = .incoming →
+        (∀ a d, s'.bal a d = s.bal a d + (if a = sw.recipient ∧ d = sw.denom then sw.amt else 0))) ∧
+      (sw.dir = .outgoing →
+        (∀ a d, s'.bal a d = s.bal a d - (if a = cfg.module ∧ d = sw.denom then sw.amt else 0)))) ∧
+    (∀ s', refund cfg hs s id = .ok s' → ∃ sw, findSwap s.swaps id = some sw ∧ Inv cfg hs s' ∧
+      (sw.dir = .incoming → s'.bal = s.bal) ∧
+      (sw.dir = .outgoing →
+        ∀ a d, s'.bal a d = s.bal a d - (if a = cfg.module ∧ d = sw.denom then sw.amt else 0) +
+          (if a = sw.sender ∧ d = sw.denom then sw.amt else 0))) := by
+  intro s
+  have hs' : Inv cfg hs s := inv_run hcfg ops s0 h0 hops
+  refine ⟨?_, ?_⟩
+  · intro s' hok
+    obtain ⟨sw, hf, hin, hout⟩ := C13_funds_claim cfg hs hcfg s s' hs' id rn hok
+    exact ⟨sw, hf, claim_inv hs' hcfg hok, fun hd => (hin hd).1, fun hd => (hout hd).1⟩
+  · intro s' hok
+    obtain ⟨sw, hf, -, hin, hout⟩ := C13_funds_refund cfg hs s s' hs' id hok
+    exact ⟨sw, hf, refund_inv hs' hok, hin, hout⟩
 
 /-! ## Supply limits
 
@@ -498,6 +569,18 @@ example : (findSwap (run exCfg exHs exGenesis [exOp1, exOp2, exOp3]).swaps exId3
 example : ((run exCfg exHs exGenesis [exOp1, exOp2, exOp3]).bal 0 0, (run exCfg exHs exGenesis [exOp1, exOp2, exOp3]).bal 3 0,
     (run exCfg exHs exGenesis [exOp1, exOp2, exOp3]).bankSupply 0) = (50, 50, 100) := by decide
 example : DeputyInv exGenesis := by intro sw hm; cases hm
+-- deputy rotation: the incoming swap created by deputy 1 is still incoming after the deputy became party 2, and
+-- claiming it mints the 100 coins to its recipient (party 3); the module account is not touched
+example : (apply exCfg exHs (run exCfg exHs exGenesis [exOp1, .setDeputy 0 2]) exOp2).isOk = true := by decide
+example : ((run exCfg exHs exGenesis [exOp1, .setDeputy 0 2, exOp2]).bal 3 0,
+    (run exCfg exHs exGenesis [exOp1, .setDeputy 0 2, exOp2]).bal 0 0,
+    ((run exCfg exHs exGenesis [exOp1, .setDeputy 0 2, exOp2]).supply 0).incoming,
+    ((run exCfg exHs exGenesis [exOp1, .setDeputy 0 2, exOp2]).supply 0).current) = (100, 0, 0, 100) := by decide
+example : (getAsset (run exCfg exHs exGenesis [exOp1, .setDeputy 0 2]).assets 0).map (·.deputy) = some 2 := by decide
+-- after the rotation the old deputy can no longer create incoming swaps, the new one can
+example : (apply exCfg exHs (run exCfg exHs exGenesis [.setDeputy 0 2])
+    (.create (exHs.H 44 1700000000) 1700000000 3 2 3 7 [(0, 100)])).isOk = true := by decide
+example : (apply exCfg exHs (run exCfg exHs exGenesis [.setDeputy 0 2]) exOp1).isOk = false := by decide
 example : (denoms exGenesis.assets).Nodup := by decide
 example : LimInv exGenesis := by
   intro d a ha
